@@ -149,7 +149,7 @@ Proof. rewrite run_app. reflexivity. Qed.
 
 Lemma stateless h h' m p :
   Permutation (regs h) (regs h') ->
-  det (cands (regs h) (upper m) (split (norm p))) (split (norm p)) = true ->
+  det (cands (regs h) (upper m) (split (norm_path p))) (split (norm_path p)) = true ->
   exists o, run [] (h ++ [Look m p]) = run [] h ++ [o] /\ run [] (h' ++ [Look m p]) = run [] h' ++ [o].
 Proof.
   intros P D. exists (find_route (regs h) m p). rewrite !history_table. split; [reflexivity|].
@@ -192,3 +192,22 @@ Proof.
   - apply Permutation_rev.
   - vm_compute. discriminate.
 Qed.
+
+(* ---------------------------------------------------------------- the empty path *)
+(* before the repair two routes that have nothing to do with the request were both candidates for
+   the empty path and the first one visited won *)
+Definition sA : str := [47;97].
+Definition sB : str := [47;98].
+Definition T_empty : list route := [mkRoute sA sGET; mkRoute sB sGET].
+
+Lemma old_refuted : exists T T' m, Permutation T T' /\ find_route_old T' m [] <> find_route_old T m [].
+Proof.
+  exists T_empty, (rev T_empty), sGET. split.
+  - apply Permutation_rev.
+  - vm_compute. discriminate.
+Qed.
+
+(* after it the empty path is the root path *)
+Lemma empty_is_root T m : find_route T m [] = find_route T m [SLASH].
+Proof. reflexivity. Qed.
+
